@@ -700,8 +700,9 @@ class PythonTypesBackend(CodeBackend):
         indirect_annotations = dt.recursive_custom_annotations if is_composite_type(dt) else set()
         all_annotations = (data_type.recursive_custom_annotations
                            if is_composite_type(data_type) else set())
-        remaining_annotations = [annotation for _, annotation in
-                                 all_annotations.difference(indirect_annotations)]
+        remaining_annotations = sorted(
+            (annotation for _, annotation in all_annotations.difference(indirect_annotations)),
+            key=lambda annotation: (annotation.namespace.name, annotation.name))
         for annotation in itertools.chain(remaining_annotations,
                                           extra_annotations):
             yield (annotation.annotation_type,
